@@ -153,8 +153,10 @@ func enumerate(e *common.Enum) {
 				if rep.Capped != "" {
 					e.Cap(in.Name + ": " + rep.Capped)
 				}
-				appendStat(e.Tier, caseStat{Family: in.Family, Instance: in.Name, Schedules: rep.Schedules, MaxPoints: rep.MaxPoints, MaxChoice: rep.MaxChoices,
-					Outcomes: rep.Outcomes, ByCost: rep.ByCost, Diverged: rep.Divergences, Unstable: rep.Unstable})
+				if !e.Replaying() {
+					appendStat(e.Tier, caseStat{Family: in.Family, Instance: in.Name, Schedules: rep.Schedules, MaxPoints: rep.MaxPoints, MaxChoice: rep.MaxChoices,
+						Outcomes: rep.Outcomes, ByCost: rep.ByCost, Diverged: rep.Divergences, Unstable: rep.Unstable})
+				}
 				var sigs []string
 				for s := range rep.Fails {
 					sigs = append(sigs, s)
@@ -275,10 +277,6 @@ func raceCase(c *common.Ctx, fam string, thorough bool) {
 		tier = "thorough"
 	}
 	for t := 0; t < trials; t++ {
-		if cf := os.Getenv("VERIF_CURFILE"); cf != "" {
-			now := time.Now()
-			os.Chtimes(cf, now, now) // heartbeat for the framework's hang detector
-		}
 		cmd := exec.Command(bin, fam, tier)
 		cmd.Env = append(os.Environ(), "GOMAXPROCS=8", "GORACE=halt_on_error=1 history_size=2", "GOTRACEBACK=single")
 		var out, errb bytes.Buffer
@@ -290,13 +288,26 @@ func raceCase(c *common.Ctx, fam string, thorough bool) {
 		}
 		go func() { done <- cmd.Wait() }()
 		var err error
-		select {
-		case err = <-done:
-		case <-time.After(90 * time.Second):
-			cmd.Process.Kill()
-			<-done
-			c.Fail("hang:race-pass:"+fam, "free-running pass did not finish within 90 s (deadlock or livelock on real goroutines)\n"+common.Trim(errb.String(), 1500))
-			return
+		deadline := time.After(300 * time.Second)
+		beat := time.NewTicker(10 * time.Second)
+	wait:
+		for {
+			select {
+			case err = <-done:
+				beat.Stop()
+				break wait
+			case <-beat.C:
+				if cf := os.Getenv("VERIF_CURFILE"); cf != "" {
+					now := time.Now()
+					os.Chtimes(cf, now, now) // heartbeat for the framework's hang detector
+				}
+			case <-deadline:
+				beat.Stop()
+				cmd.Process.Kill()
+				<-done
+				c.Fail("hang:race-pass:"+fam, "free-running pass did not finish within 300 s (deadlock or livelock on real goroutines; it normally takes 1–15 s)\n"+common.Trim(errb.String(), 1500))
+				return
+			}
 		}
 		es := errb.String()
 		if i := strings.Index(es, "WARNING: DATA RACE"); i >= 0 {
